@@ -12,7 +12,19 @@ type Lexer struct {
 	line    int
 	column  int
 	atStart bool
+	header  headerState
 }
+
+// headerState tracks the position inside a transaction header line, where the
+// description (or payee | note) is free text and must not be tokenized as
+// accounts, commodities or numbers.
+type headerState int
+
+const (
+	headerNone      headerState = iota // not on a transaction header line
+	headerAfterDate                    // secondary date, status and code may still follow
+	headerText                         // the description has started
+)
 
 func NewLexer(input string) *Lexer {
 	return &Lexer{
@@ -48,6 +60,7 @@ func (l *Lexer) scanLineStart() Token {
 	}
 
 	if l.isDigit(l.peek()) {
+		l.header = headerAfterDate
 		return l.scanDate()
 	}
 
@@ -63,6 +76,12 @@ func (l *Lexer) scanInLine() Token {
 
 	if l.pos >= len(l.input) {
 		return l.makeToken(TokenEOF, "")
+	}
+
+	if l.header != headerNone {
+		if tok, ok := l.scanHeader(); ok {
+			return tok
+		}
 	}
 
 	ch := l.peek()
@@ -119,6 +138,28 @@ func (l *Lexer) scanInLine() Token {
 	default:
 		return l.scanText()
 	}
+}
+
+// scanHeader handles the free-text part of a transaction header line. It
+// reports false for the tokens that keep their regular meaning there (line end,
+// comment, pipe, and - before the description starts - secondary date, status).
+func (l *Lexer) scanHeader() (Token, bool) {
+	ch := l.peek()
+	if ch == '\n' || ch == ';' || ch == '|' {
+		return Token{}, false
+	}
+	if l.header == headerAfterDate {
+		switch {
+		case ch == '=' || ch == '*' || ch == '!':
+			return Token{}, false
+		case l.isDigit(ch) && l.pos > 0 && l.input[l.pos-1] == '=':
+			return Token{}, false
+		case ch == '(':
+			return l.scanCode(), true
+		}
+		l.header = headerText
+	}
+	return l.scanText(), true
 }
 
 func (l *Lexer) scanDate() Token {
@@ -193,6 +234,7 @@ func (l *Lexer) scanNewline() Token {
 	l.line++
 	l.column = 1
 	l.atStart = true
+	l.header = headerNone
 	return Token{Type: TokenNewline, Value: "\n", Pos: startPos, End: l.position()}
 }
 
